@@ -266,6 +266,85 @@ def stale_snapshot(m, w, leader=N1, lag=None):
     return w
 
 
+def stale_vote5(m, w):
+    """5 voters. n4 led term 1 (its no-op is on n1..n4, n5 missed it). n1 and n3 both ran for term 2:
+    n1 won with n2 and n4, n3 got n5's vote and its request to n2 is still in flight. n5 then ran for
+    term 3 and n2 has moved to term 3 without voting (n5's log is behind). The old term-2 request of
+    n3 is about to reach n2."""
+    w = m.connect_all(w)
+    w = m.cut(w, N4, N5)
+    four = [N1, N2, N3, N4]
+    w = elect(m, w, N4, only=four)
+    w = beat(m, w, N4, only=four, times=2)
+    w = m.do(w, ('T', N1, m.cfg.tmin + 0.001), ('T', N3, m.cfg.tmin + 0.001))
+    w = m.do(w, ('D', N1, N2), ('D', N1, N4), ('D', N2, N1), ('D', N4, N1))
+    w = m.do(w, ('D', N3, N5), ('D', N5, N3))
+    w = m.do(w, ('T', N5, m.cfg.tmin + 0.001))
+    w = m.do(w, ('D', N5, N2))
+    s2 = m.summary(w, N2)
+    if not m.summary(w, N1).leader_flag or s2.term != 3 or not w.queue(N3, N2):
+        m.seed_shape_ok = False
+    return w
+
+
+def stale_reset5(m, w):
+    """5 voters, four terms (L=n1, X=n2, Y=n3, E=n4, A=n5). A's answer 'retry from 2' to L's heartbeat
+    of term 1 stays in flight while X (term 2) gives A two entries that never reach anybody else, Y
+    (term 3) commits other entries at those positions with L and E, and L (term 4) leads again. When
+    the old answer arrives L restarts A from index 2; with a small batch size its first message covers
+    only entries A already has, but carries a commit index beyond A's stale tail."""
+    L, X, Y, E, A = N1, N2, N3, N4, N5
+    hb = m.cfg.period + 0.001
+    el = m.cfg.tmin + 0.001
+    w = m.connect_all(w)
+    # term 1: L leads; its first message to A is lost, A answers the next heartbeat with 'retry from 2'
+    w = m.do(w, ('T', L, el))
+    for n in (X, Y, E):
+        w = m.do(w, ('D', L, n), ('D', n, L))
+    w = m.cut(w, L, A)
+    w = m.drain(w, only=[L, X, Y, E])
+    w = submit(m, w, L, 2, only=[L, X, Y, E])     # two commands of term 1 that A will later get from X
+    w = m.do(w, ('R', L, A, 'free'))
+    w = m.drain(w, only=[L, A], ticks=False)
+    w = m.do(w, ('T', L, hb))
+    w = m.do(w, ('D', L, A))                      # A: unknown index -> 'retry from 2' (stays in flight)
+    w = m.drain(w, only=[L, X, Y, E])
+    # term 2: X leads with Y, E, A; L hears nothing
+    for n in (X, Y, E):
+        w = m.cut(w, L, n)
+    w = m.do(w, ('T', X, el))
+    w = m.drain(w, only=[X, Y, E, A], skip_links=((A, L),))
+    w = beat(m, w, X, only=[X, Y, E, A], times=2)
+    # only A receives two more entries of X
+    w = m.cut(w, X, Y)
+    w = m.cut(w, X, E)
+    w = m.do(w, ('S', X, 'free'), ('S', X, 'free'), ('Z', X), ('T', X, hb))
+    while w.queue(X, A):
+        w = m.do(w, ('D', X, A))
+    # term 3: Y leads with L and E and commits other entries at those positions; nothing of Y reaches A
+    w = m.cut(w, Y, A)
+    w = m.cut(w, X, A)
+    for n in (Y, E):
+        w = m.do(w, ('R', L, n, 'free'))
+    w = m.drain(w, only=[L, Y, E], ticks=False, skip_links=((A, L),))
+    w = m.do(w, ('T', Y, el))
+    w = m.drain(w, only=[L, Y, E], skip_links=((A, L),))
+    w = beat(m, w, Y, only=[L, Y, E], times=2)
+    w = submit(m, w, Y, 2, only=[L, Y, E])
+    # term 4: L leads again (votes of Y and E)
+    w = m.do(w, ('T', L, el))
+    for n in (Y, E):
+        while w.queue(L, n):
+            w = m.do(w, ('D', L, n))
+        while w.queue(n, L):
+            w = m.do(w, ('D', n, L))
+    w = m.drain(w, only=[L, Y, E])
+    w = beat(m, w, L, only=[L, Y, E], times=2)
+    if not m.summary(w, L).leader_flag or not w.queue(A, L):
+        m.seed_shape_ok = False
+    return w
+
+
 def voted(m, w, cand=N1, voter=N2):
     """`cand` is candidate, `voter` has granted its vote (answer in flight), nobody else has
     seen the request yet."""
@@ -377,7 +456,7 @@ def candidates(m, w, who=(N1, N2)):
     return w
 
 
-SEEDS = dict(voted=voted, stale_snapshot=stale_snapshot, ahead_full=ahead_full, fig8_full=fig8_full, candidates=candidates, battery_lagsnap=battery_lagsnap, ahead=ahead, lagging_newleader=lagging_newleader, m_deposed=m_deposed, split=split, version_snap=version_snap, fresh=fresh, steady=steady, lagging=lagging, lagging_snap=lagging_snap, deposed=deposed,
+SEEDS = dict(voted=voted, stale_reset5=stale_reset5, stale_vote5=stale_vote5, stale_snapshot=stale_snapshot, ahead_full=ahead_full, fig8_full=fig8_full, candidates=candidates, battery_lagsnap=battery_lagsnap, ahead=ahead, lagging_newleader=lagging_newleader, m_deposed=m_deposed, split=split, version_snap=version_snap, fresh=fresh, steady=steady, lagging=lagging, lagging_snap=lagging_snap, deposed=deposed,
              deposed_snap=deposed_snap, deposed_twice=deposed_twice, pending=pending, reconnect_pipeline=reconnect_pipeline,
              forwarded=forwarded, fig8=fig8)
 
